@@ -394,5 +394,17 @@ pub fn run(tier: Tier) -> i32 {
     let f_texts: Vec<&'static str> = vec!["x", "1.5", "x+y", "x*0.5-y", "sin(x)", "-x^2", "sin(x+1)*y", "max(x,1)/y", "{a b}+PI", "--x", "cos sin x", "(x+1)*(y-2)", "x/y/2", "1+2+x+3", "ln(x)^y", "x min y", "atan2(x,y)+e", "{a\"b}+x", "{a\\b}*{tab\there}"];
     let m = RoundTrip::<f64> { texts: Arc::new(f_texts), pool: Arc::new(vec!["y", "2", "x*0.5", "cos(z)"]), uns: vec!["-", "sqrt", "sin"], bins: vec!["+", "-", "/", "^", "max"], max_len: k, _t: Default::default() };
     explore(m, &mut rep, "c12", "f64");
+    // large expressions (more than 255 operands / variables / nesting levels on the way down),
+    // parsed and converted once
+    let chain = |n: usize, f: &dyn Fn(usize) -> String, op: &str| -> &'static str { intern(&(0..n).map(f).collect::<Vec<_>>().join(op)) };
+    let big: Vec<&'static str> = vec![
+        chain(300, &|i| format!("v{i:03}"), "+"),
+        chain(300, &|i| if i % 3 == 0 { "2".to_string() } else { format!("{{n {}}}", i % 7) }, "*"),
+        chain(257, &|i| format!("f(x{})", i % 5), "-"),
+        intern(&format!("{}x{}", "(1+".repeat(130), "*y)".repeat(130))),
+        intern(&format!("{}x{}", "f(-(".repeat(130), "))".repeat(130))),
+    ];
+    let m = RoundTrip::<Sym> { texts: Arc::new(big), pool: Arc::new(vec!["y"]), uns: vec!["-"], bins: vec!["+"], max_len: 2, _t: Default::default() };
+    explore(m, &mut rep, "c12", "symbolic, 5 large texts (300 operands, 300 occurrences of 7 braced names, 257 function calls, 130 nesting levels), one transformation");
     rep.finish()
 }
